@@ -306,8 +306,11 @@ def b6(ctx, rep, T):
     STRIPPING = {'to_camel_case', 'to_pascal_case'}
     n = 0
     guarded_helpers = {}
-    for be, (_st, file) in emit.BACKENDS.items():
+    # the back ends, and the helpers they share (language/mod.rs): a guard may live in one function used by several printers
+    for be, file in [(b_, f_) for b_, (_st, f_) in emit.BACKENDS.items()] + [('mod', 'language/mod.rs')]:
         for f in [g for g in inline.file_views(ctx, file)]:
+            if be == 'mod' and f['sites']:
+                continue
             seen = set()
             trees = [(st['fmt'], st['line']) for st in f['sites']]
             if not f['sites']:
@@ -354,7 +357,7 @@ def b6(ctx, rep, T):
                     if not f['sites']:
                         guarded_helpers[f['name'].split('::')[-1]] = ok
                     rep.check(ok, 'B6', f"{be}:{f['name']}:digit-guard-subject", 'the tested string is the emitted string', f"{be}: {f['qual']} tests `{vt.show(subj)[:60]}` for a leading digit but emits `{vt.show(eval_)[:60]}` (prefixed form: `{vt.show(tval)[:50]}`) — the guard does not protect the printed identifier: a name whose *printed* form starts with a digit is emitted as is and the target file does not parse", {'file': f['file'], 'line': line})
-    rep.floor('B6', 'leading-digit guards', n, 3)
+    rep.floor('B6', 'leading-digit guards', n, 1)     # one shared helper is enough; what must be covered is counted below (declarations)
     # (ii) coverage of the declaration sites
     decl = re.compile(r'(\bcase |\bobject |\bdata class |\bcase class |\bcase object |\bclass )_?$')
     nd = 0
@@ -378,8 +381,11 @@ def b6(ctx, rep, T):
                 if not cands:
                     continue
                 nd += 1
-                via = cands[0][1][2]
-                by_helper = any(guarded_helpers.get(v) for v in via)
+                via = list(cands[0][1][2])
+                # a guarded helper protects the printed identifier only when it is applied to the *converted* name: after the last
+                # underscore-stripping conversion on the way from the IR to the template
+                last_strip = max([i for i, v in enumerate(via) if v in STRIPPING], default=-1)
+                by_helper = any(guarded_helpers.get(v) and i > last_strip for i, v in enumerate(via))
                 inline_guard = any(lit.endswith('_') for lit, c, conds in cands) and any(not lit.endswith('_') for lit, c, conds in cands) and any('is_ascii_digit' in json.dumps(conds, default=str) for lit, c, conds in cands)
                 rep.check(by_helper or inline_guard, 'B6', f"{be}:{f['name']}:variant-declaration-guarded:{decl.search(cands[0][0]).group(1).strip()}", 'declared variant identifier is digit-guarded', f"{be}: {f['qual']} declares the variant identifier `{emit.seq_str([cands[0][1]])[:70]}` after `{cands[0][0][-14:]}` without a leading-digit guard: the conversion drops leading underscores, so a variant such as `_1A` is declared as `1a` / `1A`, which is not an identifier", {'file': f['file'], 'line': s['line']})
     rep.floor('B6', 'variant identifier declarations through an underscore-stripping conversion', nd, 4)
